@@ -2,18 +2,23 @@
 //
 // Seeded, structure-aware hostile inputs (byte / token / pdfgen-hostile mutations of valid PDFs, DER
 // mutations inside signature dictionaries, mutated fonts, certificates, PKCS#7 blobs, form / bookmark /
-// viewer-preference / create JSON and CSV) are fed to the public entry points in child processes
-// (one child per batch, GOMAXPROCS=2, 64 MB stack limit, 4 GiB address-space limit). The child
-// journals (case, entry) before every call, recovers panics per call and measures the CPU seconds of
-// every call with getrusage. The parent attributes a fatal death of the child (stack overflow,
-// runtime fatal error, signal) to the journalled call, restarts after it, and re-runs CPU-budget
-// candidates alone with twice the budget.
+// viewer-preference / create JSON and CSV; quick 4 000, thorough 60 000 cases, plus 5 fixed 1-3.5 MB
+// scale probes) are fed to the public entry points in child processes (one child per batch of 40
+// cases, GOMAXPROCS=2, 64 MB stack limit, 4 GiB address-space limit). The child journals (case,
+// entry) before every call, recovers panics per call and measures the CPU seconds of every call with
+// getrusage. The parent attributes a fatal death of the child (stack overflow, runtime fatal error,
+// signal) to the journalled call, restarts behind it, and re-runs CPU-budget candidates alone with
+// twice the budget.
 //
 //	violation keys:  entry=<E>/panic=<innermost pdfcpu frame>      a panic escaped entry point E
 //	                 entry=<E>/class=stack-overflow/cycle=<fn>     the child died of stack exhaustion
 //	                 entry=<E>/class=cpu-bound                     > 20 s CPU per 256 KB input, twice
 //	                 entry=<E>/class=fatal/<runtime message>       other fatal death (concurrent map ...)
 //	inconclusive:    wall-clock watchdog, out of memory (C09's topic), child killed
+//
+// Development aids (not part of the check): C08_CASES=<n> smaller run, C08_PROBES=1 with it keeps the
+// scale probes, C08_TIMING=1 per-batch times, C08_TRIAGE=<replay file> runs the stored call in this
+// process without recover (full trace with file:line), VERIF_KEEP=1 keeps the batch directories.
 package main
 
 import (
